@@ -105,5 +105,6 @@ def check(rep, ctx):
                                       instance=construct, **W.codec_loc({"fn": fn, "line": wd.get("_line", 0)}))
                     if not [i for i in issues if i[0] in ("T-float64", "T-trunc")] and q is not None:
                         rep.check(R_D, True, construct=fn, stmt=timeflow.show(wd["conv"]), instance=construct)
+    W.finish(rep)
     rep.extra.update(classes=len(S.classes), engine_stats=W.bundle.get("stats"))
     rep.trusted_base += ["struct format semantics", "IEEE-754 binary64: integers above 2**53 are not all representable"]
